@@ -599,6 +599,20 @@ func ruleP01Lex(p *Prog, r *Report) {
 			}
 		}
 		r.check(okRej, rule, pt.fn+":gate", p.pos(f.Pos()), "no match -> error on every path", pt.fn+" does not fail on every path where the pattern does not match")
+		// … and nothing is accepted without having been matched: every successful return lies
+		// behind the match (no fast path that recognises "the common case" by other means)
+		if mi, isIn := matchV.(ssa.Instruction); isIn {
+			for i, ret := range returnsOf(f) {
+				if len(ret.Results) < 2 {
+					continue
+				}
+				if ev := retResult(ret, len(ret.Results)-1); !isNilConst(ev) && p.nilnessAt(ret.Block(), ev, 0) == nnNonNil {
+					continue // a refusal
+				}
+				behind := mi.Block() == ret.Block() || mi.Block().Dominates(ret.Block())
+				r.check(behind, rule, fmt.Sprintf("%s:gate:success#%d", pt.fn, i), p.instrPos(ret), "a value is handed out only after the text matched the pattern", pt.fn+" hands out a value on a path on which the text was never matched against "+pt.global+": whatever that path accepts beyond the pattern (a sign in front of a number, say) is accepted although it is not a literal of the specification")
+			}
+		}
 	}
 	// summary line patterns (used with MatchString: search semantics)
 	for _, sp := range []struct{ global, ref, what string }{
@@ -972,6 +986,16 @@ func ruleP16AmPm(p *Prog, r *Report) {
 	for _, a := range ts.AnonFuncs {
 		if a.Signature.Results().Len() == 2 {
 			pr = a
+		}
+	}
+	if pr == nil {
+		// ToString may hand its own format to ToStringWithFormat, which then does the printing
+		if alt := p.method("klog", "time", "ToStringWithFormat"); alt != nil && len(callsTo(ts, alt)) > 0 {
+			for _, a := range alt.AnonFuncs {
+				if a.Signature.Results().Len() == 2 {
+					pr, ts = a, alt
+				}
+			}
 		}
 	}
 	if pr == nil {
